@@ -147,7 +147,9 @@ def run_config(c: dict) -> dict:
         elif c["kind"] == "sparse":
             X = ttb.sptensor(X.subs.copy(), X.vals * sc, X.shape)
         else:
-            X = ttb.ttensor(ttb.tensor(X.core.data * sc), [f.copy() for f in X.factor_matrices])
+            # (history of the object: its norm was asked for before the core was rescaled in place)
+            X.norm()
+            X.core.data[...] = X.core.data * sc
     ids = make_ids()
     rng = np.random.RandomState(c["seed"] + 7)
     init_kt = ttb.ktensor([rng.rand(s, rank) for s in shape], np.ones(rank))
